@@ -223,9 +223,27 @@ def fixups(db, ctx):
     ctx.floor(4)
     g = db.one("get_word_info", "WordInfos")
     ok = False
+    from ..db import deref_all
+
+    def _minus_syn(x):
+        x = peel(x)
+        return (x.get("k") in ("Binary", "AssignOp") and x.get("op") == "Sub" and flag_names(x["r"]) == {"SYNONYM_GROUP_ID"}) or \
+            (x.get("k") == "MethodCall" and x.get("method") in ("difference", "remove") and x["args"] and flag_names(x["args"][0]) == {"SYNONYM_GROUP_ID"})
+    is_has = lambda a: peel(a).get("k") == "Field" and peel(a).get("name") == "has_synonym_group_ids"
     for n, ps in walk(g.hir):
-        if n.get("k") == "If" and "has_synonym_group_ids" in render(n["cond"]):
-            for x, _ in walk(n["then"]):
-                if x.get("k") == "AssignOp" and x.get("op") == "Sub" and flag_names(x["r"]) == {"SYNONYM_GROUP_ID"}:
-                    ok = True
+        # `if !self.has_synonym_group_ids { subset -= SYNONYM_GROUP_ID }`
+        if n.get("k") == "If" and any(is_has(a) and p is False for a, p in atoms(n["cond"], True)):
+            if any(_minus_syn(x) for x, _ in walk(n["then"])):
+                ok = True
+        # `let subset = if self.has_synonym_group_ids { subset } else { subset - SYNONYM_GROUP_ID }` (either polarity)
+        if n.get("k") == "If" and "else" in n:
+            pos = any(is_has(a) and p is True for a, p in atoms(n["cond"], True))
+            neg = any(is_has(a) and p is False for a, p in atoms(n["cond"], True))
+            absent_branch = n["else"] if pos else n["then"] if neg else None
+            present_branch = n["then"] if pos else n["else"] if neg else None
+            if absent_branch is not None and any(_minus_syn(x) for x, _ in walk(absent_branch)) and not any(_minus_syn(x) for x, _ in walk(present_branch)):
+                # ... and that value is what the parser is given
+                for c, _ in walk(g.hir):
+                    if c.get("k") == "MethodCall" and c.get("method") == "parse_word_info" and len(c["args"]) > 1 and deref_all(c["args"][1]) is peel(n):
+                        ok = True
     ctx.ob("get_word_info|drop-synonyms-if-absent", ok, "WordInfos::get_word_info removes SYNONYM_GROUP_ID when !has_synonym_group_ids: %s" % ok, fn=g)
